@@ -168,8 +168,14 @@ def part_b(ctx):
                     if w == 0 and kind != "raise":
                         continue  # no worker process: the task runs in the driving process itself
                     combos.append((what, src, marker, w, idx, kind))
+    # a worker that cannot WRITE its output: every chunk write of the chosen task fails with an OSError, for several errnos
+    # (errors a retry loop might call transient, and one nobody would)
+    io_combos = [(what, src, marker, w, idx, "ioerr-" + e) for what, src, marker, idxs in plan if what != "explode"
+                 for w in (0, 1, 2) for idx in idxs[:2] for e in ("EIO", "ESTALE", "EAGAIN", "EBUSY", "ENOSPC", "EACCES")]
     if ctx.quick:
-        combos = r.sample(combos, 30)
+        combos = r.sample(combos, 30) + r.sample(io_combos, 8)
+    else:
+        combos += io_combos
     hangs = 0
     for what, src, marker, w, idx, kind in combos:
         if hangs >= 3:
